@@ -51,9 +51,35 @@ pub fn in_target(id: &'static str, data: &[u8]) {
     static REG: OnceLock<Vec<Box<dyn crate::engine::DynProperty>>> = OnceLock::new();
     let reg = REG.get_or_init(crate::props::registry);
     let Some(p) = reg.iter().find(|p| p.id() == id) else { return };
-    let Some(v) = p.fuzz_one(data) else { return };
-    if v.status == crate::engine::Status::Fail && !open_sigs(id).contains(&v.sig) {
-        eprintln!("VERIF-ORACLE property={id} [{}] {}", v.sig, crate::run::trunc(&v.detail, 1500));
-        std::process::abort();
+    // The case runs on its own thread with the sandbox's stack size, and this thread waits for it with a
+    // time limit of its own: libFuzzer's alarm-based timeout handler is not async-signal-safe (it was seen to
+    // deadlock a fork-mode child for good), so slow inputs are stored and abandoned from here instead.
+    let owned: Vec<u8> = data.to_vec();
+    let (tx, rx) = std::sync::mpsc::channel();
+    let spawned = std::thread::Builder::new().stack_size(2 << 20).spawn(move || {
+        let _ = tx.send(p.fuzz_one(&owned));
+    });
+    if spawned.is_err() {
+        return;
+    }
+    let limit = std::time::Duration::from_secs(std::env::var("VERIF_FUZZ_UNIT_SECS").ok().and_then(|s| s.parse().ok()).unwrap_or(10));
+    match rx.recv_timeout(limit) {
+        Ok(Some(v)) => {
+            if v.status == crate::engine::Status::Fail && !open_sigs(id).contains(&v.sig) {
+                eprintln!("VERIF-ORACLE property={id} [{}] {}", v.sig, crate::run::trunc(&v.detail, 1500));
+                std::process::abort();
+            }
+        }
+        Ok(None) => {}
+        Err(std::sync::mpsc::RecvTimeoutError::Timeout) => {
+            if let Ok(dir) = std::env::var("VERIF_FUZZ_ARTIFACTS") {
+                let _ = std::fs::write(format!("{dir}/timeout-{:016x}", crate::engine::hash_bytes(data)), data);
+            }
+            eprintln!("VERIF-SLOW property={id}: input of {} bytes still running after {limit:?}; stored, leaving this process", data.len());
+            // the worker thread cannot be stopped: end the process (fork mode starts a new one)
+            std::process::abort();
+        }
+        // the case thread died without an answer (a panic inside the harness): libFuzzer will have seen it
+        Err(std::sync::mpsc::RecvTimeoutError::Disconnected) => {}
     }
 }
